@@ -432,7 +432,8 @@ def descOf (p : Param) : ArgDesc :=
     conv := convOf p.ty, isResult := false, isEnum := p.ty = .enum }
 
 /-- declarations in the modelled domain: `char` by value (`chr`) and `char *` (`cstr`) are separate
-    kinds; by-value parameters are `in`; `std::string` by value is mode `convString`; `inner` marks
+    kinds; by-value parameters are `in`; `std::string` by value is built explicitly (fix e523686; `Mode.convString`, the compiler's converting
+    constructor, only describes the code before it); `inner` marks
     `T **` / `T *&` (native; `char **` and `void **` with intent in); `fnptr` is a callback passed by value. -/
 def Param.valid (p : Param) : Bool :=
   if p.inner then
@@ -442,14 +443,12 @@ def Param.valid (p : Param) : Bool :=
   | .fnptr, .value => p.intent = .in_
   | .fnptr, _ => false
   | .void_, _ => false
-  | .string, .convString => p.intent = .in_
   | _, .convString => false
   | .chr, .value => p.intent = .in_
   | .chr, _ => false
   | .cstr, .pointer => true
   | .cstr, _ => false
   | .enum, .value => p.intent = .in_
-  | .string, .value => false
   | _, .value => p.intent = .in_
   | _, _ => true
 
@@ -470,7 +469,7 @@ def wellTyped (h : Heap) (p : Param) (c : Val) : Prop :=
 def expected (h : Heap) (p : Param) (c : Val) : Seen :=
   match p.ty, p.mode, c with
   | .enum, .value, .int n => .val (.enum n)                  -- enum from its int form
-  | .string, .convString, .ptr (.heap a) => .val (h a)       -- std::string by value built from the C string
+  | .string, .value, .ptr (.heap a) => .val (h a)            -- std::string by value built from the C string
   | .string, m, .ptr (.heap a) =>                            -- std::string rebuilt from the C string
     (match p.intent with
      | .out => .tmp m (.str [])
@@ -488,7 +487,7 @@ def docPlan (p : Param) : ArgPlan :=
   | .enum, .value => ⟨[.arg], [.castEnum], some (.plain .cxx), []⟩
   | .enum, m => ⟨[.arg], [.structCast false], some (if m = .reference then .deref .cxx else .plain .cxx), []⟩
   | .chr, .value => ⟨[.argDecl 1], [], some (.plain .c), []⟩
-  | .string, .convString => ⟨[.argDecl 1], [], some (.plain .c), []⟩
+  | .string, .value => ⟨[.argDecl 1], [.strFromC], some (.plain .cxx), []⟩
   | .string, m =>
     ⟨[.arg], [if p.intent = .out then .strEmpty else .strFromC],
      some (if m = .pointer then .addrOf .cxx else .plain .cxx),
@@ -552,11 +551,21 @@ theorem arg_call_equivalence (h : Heap) (p : Param) (c : Val) (hv : p.valid = tr
 example : runArg (fun _ => .str [104, 105]) .reference (planOf ⟨.string, .reference, .in_, false⟩) (.ptr (.heap 7))
     = some (.tmp .reference (.str [104, 105])) := by decide +kernel
 
-/-- `std::string` by value: the wrapper passes the `char *` and C++ builds the parameter from it -/
+/-- `std::string` by value (after e523686): the wrapper constructs the std::string from the C string
+    and passes that object -/
 theorem string_by_value (h : Heap) (a : Nat) (s : List Nat) (hs : h a = .str s) :
-    runArg h .convString (planOf ⟨.string, .convString, .in_, false⟩) (.ptr (.heap a)) = some (.val (.str s)) := by
-  have := arg_call_equivalence h ⟨.string, .convString, .in_, false⟩ (.ptr (.heap a)) (by decide) ⟨a, s, rfl, hs⟩
+    runArg h .value (planOf ⟨.string, .value, .in_, false⟩) (.ptr (.heap a)) = some (.val (.str s)) := by
+  have := arg_call_equivalence h ⟨.string, .value, .in_, false⟩ (.ptr (.heap a)) (by decide) ⟨a, s, rfl, hs⟩
   simpa [expected, hs] using this
+
+/-- witness about the code before e523686: it passed the `char *` itself; the value the overloaded
+    C++ name receives is a pointer, not a std::string (overload resolution may then prefer `bool` or
+    `const char *`); only under the converting-constructor reading (`Mode.convString`, a name that is
+    not overloaded) is it the string -/
+theorem string_by_value_old_code (h : Heap) (a : Nat) (s : List Nat) (hs : h a = .str s) :
+    runArg h .value ⟨[.argDecl 1], [], some (.plain .c), []⟩ (.ptr (.heap a)) = some (.val (.ptr (.heap a))) ∧
+    runArg h .convString ⟨[.argDecl 1], [], some (.plain .c), []⟩ (.ptr (.heap a)) = some (.val (.str s)) := by
+  simp [runArg, runPre, evalCall, resolve, Env.get, hs]
 
 /-- `T **` is passed through, `T *&` is rebuilt from the `T **` the C caller passes (`*x`): in both
     cases the callee works on the caller's pointer cell `a`, for every intent. -/
@@ -775,6 +784,22 @@ theorem result_equivalence (h : Heap) (k : RKind) (m s c : Bool) (ps : List Para
       | (obtain ⟨a, rfl⟩ := hr
          cases a <;>
          simp [runResult, docRes, expectedRes, cxxDen, applyConv, applyPrefix, structBackDen, RKind.isPtr, resTriple, optPtr]))
+
+/-- **class reference results keep identity**: for `T &f()` the handle the C caller gets holds the very
+    object the C++ call returns (what the entry reached for `[c, shadow, &, result]` does); the plan
+    for a by-value result (reached for `[c, shadow, scalar, result]`) hands out a fresh copy instead,
+    so using the by-value key for a reference result loses identity. -/
+theorem class_reference_result_identity (h : Heap) (m s c : Bool) (ps : List Param) (a tail fresh idtor : Nat) :
+    runResult h (resPlanOf .shadowRef m s c ps) false (.ref a) (some tail) fresh idtor =
+      ⟨some (.ptr (.heap tail)), some (tail, .capsule (some a) idtor)⟩ ∧
+    (fresh ≠ a →
+      ∀ v, runResult h (resPlanOf .shadowVal m s c ps) false (.val v) (some tail) fresh idtor ≠
+        ⟨some (.ptr (.heap tail)), some (tail, .capsule (some a) idtor)⟩) := by
+  rw [table_res_shapes, table_res_shapes]
+  constructor
+  · simp [runResult, docRes]
+  · intro hne v
+    simp [runResult, docRes, hne]
 
 /-- **(1d) `this`**: present exactly for instance methods and destructors, with the method's
     constness, and it is the object held by the capsule the first C parameter points to. -/
